@@ -323,6 +323,7 @@ def classes():
             self.alter = settings.get("alter")          # {"ticks": k}: before-order hook shifts the pending price
             self.fund_changes = settings.get("fundChanges", [])  # performed "now" in before-step hooks
             self.relative = settings.get("relativeTimes", False)
+            self.session_actions = settings.get("sessionActions")   # {"before": ["order", "cancel"], "after": [...]}
             self.hooks = []
 
         def hook_registration(self):
@@ -379,10 +380,44 @@ def classes():
         def hooked_before_session(self, simulator, session):
             self._rec("session_before", session=session,
                       mtimes=[m.get_time() for m in simulator.markets])
+            self._session_actions(simulator, "before")
+
+        def _session_actions(self, simulator, when):
+            """an event that acts on the markets when a session opens or closes (an opening auction feed, a
+            clean-up of resting orders): it submits / cancels the way the runner does, callbacks included."""
+            acts = self.session_actions or {}
+            if not acts.get(when):
+                return
+            from pams.order import LIMIT_ORDER, Cancel, Order
+
+            agents = [a for a in simulator.agents if type(a).__name__.startswith(("Script", "FalsyScript"))]
+            for m in simulator.markets:
+                if hasattr(m, "get_components"):
+                    continue
+                owner = next((a for a in agents if a.is_market_accessible(m.market_id)), None)
+                if owner is None:
+                    continue
+                if "cancel" in acts[when]:
+                    for ob in (m.buy_order_book, m.sell_order_book):
+                        for o in sorted(ob.priority_queue)[:3]:
+                            if o.agent_id == owner.agent_id:
+                                log = m._cancel_order(Cancel(order=o))
+                                owner.canceled_order(log)
+                                taps.hits["session_hook_cancelled_a_resting_order"] += 1
+                if "order" in acts[when]:
+                    far = max(m.get_market_price() * 0.5, m.tick_size)
+                    o = Order(agent_id=owner.agent_id, market_id=m.market_id, is_buy=True, kind=LIMIT_ORDER, volume=1,
+                              price=far, ttl=acts.get("ttl", 2))
+                    log = m._add_order(o)
+                    owner.submitted_order(log)
+                    if hasattr(owner, "my_orders"):
+                        owner.my_orders.append(o)
+                    taps.hits["session_hook_submitted_an_order"] += 1
 
         def hooked_after_session(self, simulator, session):
             self._rec("session_after", session=session,
                       mtimes=[m.get_time() for m in simulator.markets])
+            self._session_actions(simulator, "after")
 
         def hooked_before_step_for_market(self, simulator, market):
             self._rec("market_before", market=market, mtime=market.get_time(),
